@@ -664,6 +664,20 @@ def c05(E, blt, opts, r):
     n = len(elig)
     if n > 9: return []
     allowance = Fraction(0) if S is None else Fraction(2 * E.nBallots * len(elig), S)
+    # Meek-family rules stop iterating when the total surplus is within omega: that much may stay untransferred.  omega is the
+    # one the count was ASKED for (options, else the rule's documented default), not whatever the rule object ended up with
+    if rule in ('meek', 'warren', 'meek-prf'):
+        try:
+            if rule == 'meek-prf':
+                om10 = 6
+            else:
+                d = declared_options(blt, opts)
+                ar = d.get('arithmetic', 'guarded')
+                prec = int(d.get('precision', 18 if ar == 'guarded' else 9))
+                om10 = int(d['omega']) if 'omega' in d else (prec // 2 if ar == 'guarded' else prec * 2 // 3 if ar == 'fixed' else 10)
+            allowance += Fraction(1, 10 ** om10)
+        except (TypeError, ValueError):
+            pass
     elected = set(c.cid for c in E.elected)
     out = []
     ballots = [(int(fv(E, b.multiplier)), list(b.ranking)) for b in E.ballots]
